@@ -148,7 +148,7 @@ def main():
             replay_result(bool(pr), pr[:2])
         if REPLAY is not None and REPLAY.get("kind") == "e2e":
             import c03_e2e
-            pr = c03_e2e.burst(REPLAY["rootkind"]) if REPLAY["op"] == "burst" else c03_e2e.run_op(REPLAY["op"], REPLAY["recursive"])
+            pr = c03_e2e.burst(REPLAY["rootkind"], REPLAY.get("which", "rename")) if REPLAY["op"] == "burst" else c03_e2e.run_op(REPLAY["op"], REPLAY["recursive"])
             replay_result(bool(pr), pr[:2])
         if REPLAY is not None and REPLAY.get("kind") == "phantom":
             pr = phantom()
@@ -175,11 +175,11 @@ def main():
         # several operations read as one batch (soundness of names), and the collision trees of the synthetic sub-event
         # generators (C14): both are about the entry's exact name, so they run for C03 and for C19
         import c03_e2e, c14_battery
-        for rk in ("str", "bytes"):
-            bat.case(("e2e-burst", rk))
-            pr = c03_e2e.burst(rk)
+        for rk, which in [(r, w) for r in ("str", "bytes") for w in c03_e2e.BURSTS]:
+            bat.case(("e2e-burst", rk, which))
+            pr = c03_e2e.burst(rk, which)
             if pr:
-                bat.fail(f"{WHICH}.burst-soundness", pr[0], {"kind": "e2e", "op": "burst", "rootkind": rk, "recursive": True, "problems": pr[:2]}, "Inotify.read_events")
+                bat.fail(f"{WHICH}.burst-soundness", pr[0], {"kind": "e2e", "op": "burst", "which": which, "rootkind": rk, "recursive": True, "problems": pr[:2]}, "Inotify.read_events")
         n = 0
         for tree in c14_battery.trees(3)[::9]:
             for new, old in (("a", "b"), ("b", "ab"), ("a", "")):
